@@ -40,12 +40,21 @@ func zvC25LeakRun(hist []string, trace bool) (leaked []string, x *vsched.Executi
 		s := zvSessStart(zvSessCfg{Name: "c25-leak", A: zvPeerOpts{Addr: 9, Hold: 3 * time.Second}})
 		for _, e := range hist {
 			if e == evPeerEOF {
+				if s.cA == nil {
+					continue
+				}
 				s.cA.mu.Lock()
 				s.cA.eof = true
 				s.cA.mu.Unlock()
 				vsched.Settle()
 				vsched.Advance(10 * time.Millisecond)
 				continue
+			}
+			switch e {
+			case evOpen, evOpenBad, evKA, evUpd1, evUpd2, evNotif, evGarbage, evWFail:
+				if s.cA == nil || s.cA.isClosed() {
+					continue // nothing to receive on (e.g. all dial attempts were refused)
+				}
 			}
 			s.apply(e)
 		}
